@@ -418,6 +418,7 @@ static char *_parsestr(qlisttbl_t *tbl, const char *str) {
                         break;
                     }
                     if ((newstr = tbl->getstr(tbl, varstr, true)) == NULL) {
+                        free(varstr);
                         s = e;  // not found
                         continue;
                     }
